@@ -1037,6 +1037,24 @@ func indexInRange(T *Terms, b *ssa.BasicBlock, x, idx ssa.Value) (bool, string) 
 			return true, "index < len known on every path"
 		}
 	}
+	// len(x) - 1 with len(x) > 0 known
+	if it == "(call:len("+xt+") - const:1)" {
+		lo, _ := intervalOf(fs, "call:len("+xt+")")
+		if lo >= 1 {
+			return true, "last element of a slice known to be non-empty"
+		}
+	}
+	// n - 1 where n is the stripped name of len(x) captured in a variable: facts on n
+	if bo, ok := idx.(*ssa.BinOp); ok && bo.Op == token.SUB {
+		if k, ok := bo.Y.(*ssa.Const); ok && k.Int64() == 1 {
+			if strip(T.T(bo.X)) == "call:len("+xt+")" {
+				lo, _ := intervalOf(fs, T.T(bo.X))
+				if lo >= 1 {
+					return true, "last element of a slice known to be non-empty"
+				}
+			}
+		}
+	}
 	// range-over-slice lowering: idx = phi(-1, idx+1)+1 compared with len(x) captured before the loop
 	if bo, ok := idx.(*ssa.BinOp); ok && bo.Op == token.ADD {
 		for _, f := range fs {
